@@ -123,7 +123,8 @@ def judge(units, acc=None):
           if acc is not None:
             _cnt(acc, "bindings compared (parameters)", len(names))
           if mism:
-            cl = sorted({f"{_pgroup(n)}: CPython {_role(e)}, pytype {_role(g)}" for n, e, g in mism})
+            cl = sorted({f"{_pgroup(n)} differs" if n in ("va", "kw") else
+                         f"{_pgroup(n)}: CPython {_role(e)}, pytype {_role(g)}" for n, e, g in mism})
             v = {"direction": "wrong binding", "clause": "; ".join(cl),
                  "detail": [[n, e, g] for n, e, g in mism], "other_errors": other}
       if v is not None:
@@ -178,17 +179,21 @@ def moves(kind, sig, call):
       if call.get("dstar") is not None:
         c2["dstar"] = _renumber_kw([x for x in call["dstar"] if x != n], letter, i)
       yield kind, s2, c2
-  if call["npos"] > 0 and (sig["po"] or sig["pk"]):
-    g, letter = ("po", "a") if sig["po"] else ("pk", "b")
-    if f"{letter}0" not in used:
-      s2 = dict(sig)
-      s2[g] = sig[g][1:]
-      if S.valid(s2):
-        c2 = dict(call, npos=call["npos"] - 1)
-        c2["kws"] = _renumber_kw(call["kws"], letter, 0)
-        if call.get("dstar") is not None:
-          c2["dstar"] = _renumber_kw(call["dstar"], letter, 0)
-        yield kind, s2, c2
+  # a positional parameter together with one positional argument
+  npo = len(sig["po"])
+  for j in range(min(call["npos"], npo + len(sig["pk"])) - 1, -1, -1):
+    g, letter, i = ("po", "a", j) if j < npo else ("pk", "b", j - npo)
+    if f"{letter}{i}" in used:
+      continue
+    s2 = dict(sig)
+    s2[g] = sig[g][:i] + sig[g][i + 1:]
+    if not S.valid(s2):
+      continue
+    c2 = dict(call, npos=call["npos"] - 1)
+    c2["kws"] = _renumber_kw(call["kws"], letter, i)
+    if call.get("dstar") is not None:
+      c2["dstar"] = _renumber_kw(call["dstar"], letter, i)
+    yield kind, s2, c2
   for g, letter in (("ko", "c"), ("pk", "b"), ("po", "a")):
     for i in range(len(sig[g]) - 1, -1, -1):
       if f"{letter}{i}" in used:
